@@ -639,6 +639,56 @@ let tx_orders (w0 : (cmap, cmap, req, dstate) world) (i : n) : (cmap, cmap, req,
      | None -> [ w0 ])
   | _ -> [ w0 ]
 
+(* Go map order in the value loops of reconcileCommit / reconcileApply (AddDeleteChildren over the change values, then
+   applyChangeToConfig over the updated change values).  The outcome depends only on (a) for each change value that is
+   also a stored value beneath a deleted value of the same change: whether it is handled after all those deleted
+   ancestors (then the change value stays) or before one of them (then the marked stored value replaces it), and (b) for
+   each deleted updated value that has updated values beneath it: whether it is applied after all of them (then the
+   tombstone stays) or before one (then it is dropped).  Every combination is realisable by some order, so one order per
+   combination is enumerated and encoded in the model's mixed-radix permutation code. *)
+let code_of_selection (n : int) (sel : int list) : int =
+  (* sel: for each position, the index picked from the remaining list *)
+  let rec go len = function [] -> 0 | k :: r -> k + len * go (len - 1) r in
+  ignore n; go n sel
+let selection_of (orig : 'a list) (target : 'a list) : int list =
+  let rec go rem = function
+    | [] -> []
+    | x :: r ->
+      let rec idx i = function [] -> failwith "selection" | y :: t -> if y == x then i else idx (i + 1) t in
+      let k = idx 0 rem in
+      k :: go (List.filteri (fun j _ -> j <> k) rem) r in
+  go orig target
+let rec fact n = if n <= 1 then 1 else n * fact (n - 1)
+let subsets (l : 'a list) : ('a list * 'a list) list =
+  (* (chosen, not chosen) *)
+  List.fold_left (fun acc x -> List.concat_map (fun (a, b) -> [ (x :: a, b); (a, x :: b) ]) acc) [ ([], []) ] (List.rev l)
+let plen (e : str * pv) = List.length (fst e)
+let by_len_asc l = List.stable_sort (fun a b -> compare (plen a) (plen b)) l
+let by_len_desc l = List.stable_sort (fun a b -> compare (plen b) (plen a)) l
+let value_orders (index : n) (ch : cmap) (vw : cmap) : int list =
+  let n = List.length ch in
+  if n = 0 || n > 10 then [ 0 ] else begin
+    let dels = List.filter (fun (_, v) -> v.pv_deleted) ch in
+    let dlike = List.filter (fun (p, _) -> List.exists (fun (d, _) -> is_path_below p d) dels && List.mem_assoc p vw) ch in
+    let dlike = if List.length dlike > 5 then [] else dlike in
+    let pis = List.map (fun (ones, zeros) ->
+        let nobit = List.filter (fun e -> not (List.memq e dlike)) ch in
+        by_len_desc zeros @ nobit @ by_len_asc ones) (subsets dlike) in
+    let res = List.concat_map (fun chp ->
+        let cp = code_of_selection n (selection_of ch chp) in
+        let upd = fst (add_delete_children index chp vw) in
+        let m = List.length upd in
+        if m > 10 then [ cp ] else begin
+          let tombs = List.filter (fun (p, v) -> v.pv_deleted && List.exists (fun (q, _) -> is_path_below q p) upd) upd in
+          let tombs = if List.length tombs > 5 then [] else tombs in
+          List.map (fun (stay, go) ->
+              let others = List.filter (fun e -> not (List.memq e tombs)) upd in
+              let target = by_len_asc go @ others @ by_len_desc stay in
+              cp + fact n * code_of_selection m (selection_of upd target)) (subsets tombs)
+        end) pis in
+    List.sort_uniq compare res
+  end
+
 (* the model's outcomes of a label from the implementation's own pre-state *)
 let model_posts (pre : istate) (label : sx) (post : istate option) dl : (unit -> (cmap, cmap, req, dstate) world * string) list =
   let w0 = pre.w in
@@ -648,9 +698,12 @@ let model_posts (pre : istate) (label : sx) (post : istate option) dl : (unit ->
        the Go map order in which the cascaded change values are applied (up to 5! orders) *)
     let choices = match c with
       | CtlMaster _ -> [ 0; 1; 2; 3 ]
-      | CtlProp k when (match List.assoc_opt (int_of_n (fst k), int_of_n (snd k)) (props_of w0) with
-                        | Some p -> p.p_commit = Some Doing && p.p_apply = None && p.p_abort = None | None -> false) ->
-        List.init 120 (fun i -> 4 * i)
+      | CtlProp k ->
+        (match List.assoc_opt (int_of_n (fst k), int_of_n (snd k)) (props_of w0), List.assoc_opt (int_of_n (fst k)) (cfgs_of w0) with
+         | Some p, Some cfg when (p.p_commit = Some Doing && p.p_apply = None && p.p_abort = None) || p.p_apply = Some Doing ->
+           let ch = rb_change [] p in
+           List.map (fun o -> 4 * o) (value_orders (snd k) ch (view overlay cfg))
+         | _ -> [ 0 ])
       | _ -> [ 0 ] in
     let starts = match c with CtlTx i when budget <> "all" -> tx_orders w0 i | _ -> [ w0 ] in
     List.concat_map (fun w1 ->
@@ -691,8 +744,8 @@ let props_of_step (label : sx) (pre : istate) (crashed : bool) : string =
       (match List.assoc_opt (inum t, inum i) (props_of pre.w) with
        | Some p when p.p_apply <> None -> [ "C02"; "C04"; "C10"; "C11" ]
        | Some p when p.p_abort <> None -> [ "C01"; "C02"; "C09" ]
-       | Some p when p.p_commit <> None -> [ "C01"; "C02"; "C05"; "C06" ]
-       | Some p when p.p_validate <> None -> [ "C05"; "C06"; "C01" ]
+       | Some p when p.p_commit <> None -> [ "C01"; "C02"; "C03"; "C04"; "C05"; "C06" ]
+       | Some p when p.p_validate <> None -> [ "C05"; "C06"; "C01"; "C03" ]
        | _ -> [ "C02"; "C09" ])
     | A "nbchange" :: _ | A "nbrollback" :: _ -> [ "C01"; "C06" ]
     | _ -> [ "C10"; "C04" ] in
